@@ -1,118 +1,11 @@
 //! C07 / C03 (extractor) / C14 / C18 inputs: SGR-rich texts; WinconBytes recorder and replayer.
-use crate::gen::{gen_char, gen_esc, gen_osc, gen_partition, push_char, Flavor};
+use crate::gen::{gen_partition, gen_styled_text, Flavor};
 use crate::rng::Rng;
 use crate::style::style_json;
 use anstream::adapter::WinconBytes;
 use serde_json::{json, Value};
 use std::io::Write;
 use std::panic::{catch_unwind, AssertUnwindSafe};
-
-const SINGLES: &[&str] = &[
-    "0", "1", "2", "3", "4", "7", "8", "9", "21", "30", "31", "34", "37", "39", "40", "41", "47", "49", "90", "91", "97", "100", "104", "107",
-    "", "00", "01", "004", "031", "5", "6", "22", "23", "24", "25", "27", "28", "29", "59", "10", "11", "26", "50", "51", "60", "73", "99", "108", "255",
-];
-
-/// one well-formed attribute group; returns (text, number of parameters)
-pub fn gen_group(r: &mut Rng) -> (String, usize) {
-    match r.below(12) {
-        0 | 1 => {
-            let t = *r.pick(&["38", "48", "58"]);
-            let n = *r.pick(&[0usize, 1, 7, 8, 15, 16, 100, 200, 231, 232, 255]);
-            let n = if r.chance(1, 3) { r.below(256) } else { n };
-            if r.chance(1, 2) { (format!("{t};5;{n}"), 3) } else { (format!("{t}:5:{n}"), 1) }
-        }
-        2 | 3 => {
-            let t = *r.pick(&["38", "48", "58"]);
-            let (a, b, c) = (r.below(256), r.below(256), r.below(256));
-            if r.chance(1, 2) { (format!("{t};2;{a};{b};{c}"), 5) } else { (format!("{t}:2:{a}:{b}:{c}"), 1) }
-        }
-        4 => (format!("4:{}", r.below(6)), 1),
-        5 => {
-            // leading zeros inside an extended colour
-            let t = *r.pick(&["38", "48", "58"]);
-            (format!("{t};05;0{}", r.below(100)), 3)
-        }
-        _ => ((*r.pick(SINGLES)).to_string(), 1),
-    }
-}
-
-pub fn gen_sgr(r: &mut Rng, out: &mut Vec<u8>) {
-    let want = *r.pick(&[1usize, 1, 1, 2, 2, 3, 4, 6, 12, 30]);
-    let mut params = 0;
-    let mut groups: Vec<String> = Vec::new();
-    for _ in 0..want {
-        let (g, n) = gen_group(r);
-        if params + n > 32 {
-            break;
-        }
-        params += n;
-        groups.push(g);
-    }
-    if groups.len() == 1 && groups[0].is_empty() && r.chance(1, 2) {
-        groups.clear();
-    }
-    out.extend_from_slice(b"\x1b[");
-    out.extend_from_slice(groups.join(";").as_bytes());
-    out.push(b'm');
-}
-
-/// a CSI that is NOT an SGR: other final byte, or final 'm' with a private marker / intermediate
-fn gen_other_csi(r: &mut Rng, out: &mut Vec<u8>) {
-    out.extend_from_slice(b"\x1b[");
-    let marked = r.chance(1, 3);
-    if marked && r.chance(1, 2) {
-        out.push(*r.pick(b"<=>?"));
-    }
-    for i in 0..r.below(4) {
-        if i > 0 {
-            out.push(b';');
-        }
-        out.extend_from_slice(r.below(120).to_string().as_bytes());
-    }
-    let inter = marked && (out.len() == 2 || r.chance(1, 2));
-    if inter || (marked && !out[2..].iter().any(|b| b"<=>?".contains(b))) {
-        out.push(*r.pick(b" !\"$"));
-    }
-    if marked {
-        out.push(b'm');
-    } else {
-        out.push(*r.pick(b"ABCDHJKSTfhlnrsu"));
-    }
-}
-
-pub fn gen_styled_text(r: &mut Rng, target: usize, xmlish: bool) -> Vec<u8> {
-    let mut out = Vec::new();
-    while out.len() < target {
-        match r.below(20) {
-            0..=6 => {
-                for _ in 0..r.range(1, 8) {
-                    out.push(r.range(0x20, 0x7e) as u8);
-                }
-            }
-            7 | 8 => {
-                for _ in 0..r.range(1, 3) {
-                    push_char(&mut out, gen_char(r));
-                }
-            }
-            9 => out.push(*r.pick(&[b'\n', b'\t', b'\r', b'\n'])),
-            10..=15 => gen_sgr(r, &mut out),
-            16 => gen_other_csi(r, &mut out),
-            17 => gen_osc(r, &mut out, Flavor::Utf8),
-            18 => gen_esc(r, &mut out),
-            _ => {
-                if xmlish {
-                    out.extend_from_slice(*r.pick(&[&b"<a&b>"[..], b"\"q\"", b"'", b"&amp;", b"]]>", b"\r\n", b"<!--"]));
-                } else {
-                    out.push(*r.pick(&[0u8, 7, 8, 0x7f, 0x18]));
-                }
-            }
-        }
-    }
-    if std::str::from_utf8(&out).is_err() {
-        out = String::from_utf8_lossy(&out).into_owned().into_bytes();
-    }
-    out
-}
 
 pub fn runs_json(runs: &[(anstyle::Style, String)]) -> Value {
     Value::Array(runs.iter().map(|(s, t)| json!([style_json(s), t.chars().map(|c| c as u32).collect::<Vec<_>>()])).collect())
@@ -148,14 +41,14 @@ pub fn record(seed: u64, streams: u64, target: usize, path: &str) -> Value {
     json!({"summary":{"calls":calls,"bytes":bytes,"streams":streams}})
 }
 
-/// mechanism A: {"i":[bytes],"allowed":[style..]|"any","text":[cps]}: the style tagged on the marker text
-/// must be one of `allowed`; every chunking of short inputs must give the same merged runs
+/// mechanism A: {"i":[bytes],"chars":[{"c":cp,"allowed":[style..]}..]}: the extractor must yield exactly these
+/// characters, each tagged with one of its allowed styles; every chunking must give the same merged runs
 pub fn replay(path: &str, all_up_to: usize) -> Value {
     let (mut cases, mut bad, mut runs_total) = (0u64, 0u64, 0u64);
     for c in crate::read_lines(path) {
         cases += 1;
         let input = crate::bytes_of(&c["i"]);
-        let text: String = c["text"].as_array().unwrap().iter().map(|x| char::from_u32(x.as_u64().unwrap() as u32).unwrap()).collect();
+        let chars = c["chars"].as_array().unwrap();
         let mut merged_one: Option<Vec<(anstyle::Style, String)>> = None;
         for cuts in crate::strip::chunkings(input.len(), all_up_to) {
             runs_total += 1;
@@ -177,19 +70,26 @@ pub fn replay(path: &str, all_up_to: usize) -> Value {
             let problem = match &res {
                 Err(_) => Some(json!("panic")),
                 Ok(runs) => {
-                    let got: String = runs.iter().map(|(_, t)| t.as_str()).collect();
-                    if got != text {
-                        Some(json!({"text":got.chars().map(|c| c as u32).collect::<Vec<_>>()}))
-                    } else if c["allowed"] != json!("any") && !runs.is_empty() && {
-                        let last = style_json(&runs.last().unwrap().0);
-                        !c["allowed"].as_array().unwrap().contains(&last)
-                    } {
-                        Some(json!({"style":style_json(&runs.last().unwrap().0)}))
-                    } else if merged_one.is_some() && merged_one.as_ref() != Some(runs) {
-                        Some(json!({"chunked":runs_json(runs),"oneshot":runs_json(merged_one.as_ref().unwrap())}))
+                    let flat: Vec<(Value, u32)> = runs.iter().flat_map(|(s, t)| t.chars().map(move |ch| (style_json(s), ch as u32))).collect();
+                    let mut p = None;
+                    if flat.len() != chars.len() {
+                        p = Some(json!({"text":flat.iter().map(|x| x.1).collect::<Vec<_>>()}));
                     } else {
-                        None
+                        for (k, (st, cp)) in flat.iter().enumerate() {
+                            if chars[k]["c"].as_u64() != Some(*cp as u64) {
+                                p = Some(json!({"text":flat.iter().map(|x| x.1).collect::<Vec<_>>()}));
+                                break;
+                            }
+                            if !chars[k]["allowed"].as_array().unwrap().contains(st) {
+                                p = Some(json!({"char_index":k,"style":st}));
+                                break;
+                            }
+                        }
                     }
+                    if p.is_none() && merged_one.is_some() && merged_one.as_ref() != Some(runs) {
+                        p = Some(json!({"chunked":runs_json(runs),"oneshot":runs_json(merged_one.as_ref().unwrap())}));
+                    }
+                    p
                 }
             };
             if merged_one.is_none() {
@@ -200,7 +100,7 @@ pub fn replay(path: &str, all_up_to: usize) -> Value {
             if let Some(p) = problem {
                 bad += 1;
                 if bad <= 40 {
-                    println!("{}", json!({"mismatch":{"input":input,"chunks":cuts,"observed":p,"allowed":c["allowed"],"text":c["text"]}}));
+                    println!("{}", json!({"mismatch":{"input":input,"chunks":cuts,"observed":p,"chars":c["chars"]}}));
                 }
                 break;
             }
